@@ -862,6 +862,8 @@ def install(interp):
                "isbuiltin", "isroutine", "isgeneratorfunction", "iscoroutine", "isawaitable"):
         interp.models[getattr(inspect, nm)] = _shape_only(getattr(inspect, nm))
     interp.models[id] = _shape_only(id)
+    import weakref
+    interp.models[weakref.finalize] = _shape_only(weakref.finalize)     # only stores its arguments
     a = interp.always
     m = interp.models
     a[len] = _len_always
